@@ -278,6 +278,75 @@ pub fn run(tier: Tier) -> Report {
     rep.add_transitions(8 * vectors.len() as u64);
     rep.add_states(2 * vectors.len() as u64);
     rep.add_nontrivial(2 * vectors.len() as u64 + 4096);
+    // ---- general (two-dimensional) blocks with few, large coefficients: intermediate values of the
+    // separable transform far beyond the 12-bit coefficient range while some output samples stay
+    // unsaturated. All pairs of positions x the boundary value set; two coefficients in one row plus
+    // a third elsewhere; sparse blocks with full-range values from the Annex A generator.
+    {
+        let mut blocks: Vec<[[i32; 8]; 8]> = vec![];
+        let pair_vals: &[i32] = if tier.thorough() { &bset } else { &[1, -3, 255, -256, 1023, 2047, -2047, -2048] };
+        for p1 in 0..64usize {
+            for p2 in p1 + 1..64 {
+                for &a in pair_vals {
+                    for &b in pair_vals {
+                        let mut c = [[0i32; 8]; 8];
+                        c[p1 / 8][p1 % 8] = a;
+                        c[p2 / 8][p2 % 8] = b;
+                        blocks.push(c);
+                    }
+                }
+            }
+        }
+        let tv = [2047, -2048, 1024, -1500, 700];
+        let thirds = [(0usize, 0usize), (0, 3), (2, 0), (3, 3), (7, 7), (5, 1), (1, 6), (4, 4)];
+        for r in 0..8usize {
+            for i in 0..8usize {
+                for j in i + 1..8 {
+                    for &(ty, tx) in &thirds {
+                        if ty == r && (tx == i || tx == j) {
+                            continue;
+                        }
+                        for &a in &tv {
+                            for &b in &tv {
+                                for &t in &tv {
+                                    let mut c = [[0i32; 8]; 8];
+                                    c[r][i] = a;
+                                    c[r][j] = b;
+                                    c[ty][tx] = t;
+                                    blocks.push(c);
+                                    // and the transpose: two coefficients in one column
+                                    let mut d = [[0i32; 8]; 8];
+                                    d[i][r] = a;
+                                    d[j][r] = b;
+                                    d[tx][ty] = t;
+                                    blocks.push(d);
+                                }
+                            }
+                        }
+                    }
+                }
+            }
+        }
+        let mut g = Ieee(4242);
+        for k in 0..if tier.thorough() { 200_000 } else { 40_000 } {
+            let mut c = [[0i32; 8]; 8];
+            let n = 3 + k % 6;
+            for _ in 0..n {
+                let pos = g.next(0, 63) as usize;
+                c[pos / 8][pos % 8] = g.next(2048, 2047);
+            }
+            // DC in the range an INTRADC can produce keeps part of the block unsaturated
+            if k % 2 == 0 {
+                c[0][0] = g.next(0, 2040);
+            }
+            blocks.push(c);
+        }
+        blocks.par_iter().for_each(|c| check_shape(&rep, "Full (sparse, large)", &full(c), c, &info));
+        rep.add_transitions(2 * blocks.len() as u64);
+        rep.add_states(blocks.len() as u64);
+        rep.add_nontrivial(blocks.len() as u64);
+        rep.extra("sparse_large_full_blocks", json!(blocks.len()));
+    }
     // ---- planes of several blocks: a block's result must not depend on its neighbours in the plane
     {
         let v1: [f32; 8] = [800.0, -93.0, 41.0, 0.0, -7.0, 0.0, 3.0, 0.0];
@@ -409,7 +478,7 @@ pub fn run(tier: Tier) -> Report {
     }
     rep.extra("off_by_one_outside_rounding_band_informational", json!(info.load(std::sync::atomic::Ordering::Relaxed)));
     rep.set_rule(&format!(
-        "Annex A procedure verbatim for generator seeds {:?}: 10000 blocks for each of (-256..255), (-5..5), (-300..300) and their negations, forward DCT in f64, rounded, clipped, through idct_channel (hook) as Full blocks, against the f64 inverse; all 4096 Dc blocks; Horiz/Vert: all single-entry vectors over -2048..2047, all two-entry vectors over a 15-value boundary set, dense vectors from the same generator; all sequences of 4 (thorough 5) blocks over a 9-letter block alphabet in one plane, in two layouts, each block compared with the same block transformed alone; planes of every size 1..26 (thorough 40) squared and around every power of two to 32768 whose last block column / row is clipped, every sample compared with the block transformed alone; each block is transformed over prediction 0 and 255 to observe residuals -255..255 (-256 is observable only as <= -255); non-trivial = sparse-shape blocks",
+        "Annex A procedure verbatim for generator seeds {:?}: 10000 blocks for each of (-256..255), (-5..5), (-300..300) and their negations, forward DCT in f64, rounded, clipped, through idct_channel (hook) as Full blocks, against the f64 inverse; all 4096 Dc blocks; Horiz/Vert: all single-entry vectors over -2048..2047, all two-entry vectors over a 15-value boundary set, dense vectors from the same generator; general blocks with two or three large coefficients (all position pairs x boundary values, row/column pairs plus a third) and sparse full-range blocks; all sequences of 4 (thorough 5) blocks over a 9-letter block alphabet in one plane, in two layouts, each block compared with the same block transformed alone; planes of every size 1..26 (thorough 40) squared and around every power of two to 32768 whose last block column / row is clipped, every sample compared with the block transformed alone; each block is transformed over prediction 0 and 255 to observe residuals -255..255 (-256 is observable only as <= -255); non-trivial = sparse-shape blocks",
         seeds
     ));
     rep.sample(json!({"annex_a": "seed 1, range -256..255, block 0: 64 generated samples -> fdct -> Full block"}));
